@@ -74,10 +74,70 @@ func genCaseFlipVsBlock(c *Ctx) {
 	c.Distinct(fmt.Sprintf("flipblock-%d-%d", c.Seed, c.nOps))
 }
 
+// genCaseCachedVotes: verification messages that arrive BEFORE their target block are cached
+// and replayed by the background loop when the first block of the next epoch is applied; the
+// replay can justify the target (flip the fork choice) after the block processor has already
+// chosen the chain for that block.
+//
+//	b0 - b1 - b2 - b3              best block
+//	       \ c2 - c3               votes b0->c2 of all validators arrive before c2
+func genCaseCachedVotes(c *Ctx) {
+	for attempt := 0; attempt < 8 && !concWedged; attempt++ {
+		nc := newNodeCase(c, "pool", 2, 3, -1, 2)
+		n := nc.sut
+		tip := "b0"
+		var main []string
+		for i := 0; i < 3; i++ {
+			tip = nc.defBlock(tip, 0, 0, nil)
+			main = append(main, tip)
+		}
+		c2 := nc.defBlock(main[0], 1, 1, nil)
+		c3 := nc.defBlock(c2, 0, 0, nil)
+		for _, name := range main {
+			n.processBlock(nc.nm.blocks[name])
+			nc.delivered[name] = true
+		}
+		for v := 0; v < 3; v++ {
+			n.chain.ProcessBlockVerification(nc.env.voteMsg(v, nc.nm.blocks["b0"].Hash(), nc.nm.blocks[c2].Hash(), true))
+		}
+		done := make(chan struct{})
+		go func() {
+			n.chain.ProcessBlock(cloneBlock(nc.nm.blocks[c2]))
+			n.chain.ProcessBlock(cloneBlock(nc.nm.blocks[c3]))
+			close(done)
+		}()
+		select {
+		case <-done:
+		case <-time.After(30 * time.Second):
+			c.Fail("C37:call-does-not-return", "blocks whose checkpoint has cached verification messages: ProcessBlock did not return within 30 s")
+			concWedged = true
+		}
+		if !concWedged {
+			n.quiesce()
+			time.Sleep(5 * time.Millisecond)
+			n.quiesce()
+			if bh, fc := n.chain.BestBlockHeader().Hash(), n.chain.VerifNodeCasper().BestChain(); bh != fc {
+				c.Fail("C37:cached-vote-no-rollback", fmt.Sprintf("cached verification messages for %s replayed after its child %s was processed: node idle, best block %s but the fork choice is %s", c2, c3, nc.nm.name(bh), nc.nm.name(fc)))
+			}
+			c.Count("cached-vote-attempts")
+			if n.chain.VerifNodeCasper().BestChain() == nc.nm.blocks[c3].Hash() {
+				c.Count("cached-vote-replay-justified-the-target")
+			}
+		}
+		nc.emit("conc cached-votes", "ok")
+		nc.close()
+	}
+	c.Distinct(fmt.Sprintf("cachedvotes-%d-%d", c.Seed, c.nOps))
+}
+
 func genCaseConc(c *Ctx, mode string) {
 	rng := c.Rng
-	if rng.Intn(3) == 0 {
+	switch rng.Intn(6) {
+	case 0, 1:
 		genCaseFlipVsBlock(c)
+		return
+	case 2:
+		genCaseCachedVotes(c)
 		return
 	}
 	// constant parameters: see newNodeEnv (no write to the global parameters between cases)
